@@ -103,11 +103,18 @@ for _k in ('S1', 'S7'):
 # S2 / S7 with DEBUG logging of the library turned on
 for _k in ('S2', 'S7'):
     SCENARIOS[_k + 'g'] = dict(SCENARIOS[_k], debug_logging=True, phase2=False)
+# a lifetime of zero next to an ordinary Interest
+SCENARIOS['S5z'] = {
+    'interests': [{'name': '/a', 'cbp': False, 'lifetime': 0}, {'name': '/b', 'cbp': False, 'lifetime': 10}, {'name': '/a', 'cbp': True, 'lifetime': 10}],
+    'packets': {'dA': {'data': '/a'}, 'dB': {'data': '/b'}},
+    'prefix': ['x1'],
+    'alphabet': ['x0', 'x2', 'dA', 'dA', 'dB', 't', 't'],
+}
 # S2 with the Data packets arriving inside link-layer envelopes
 SCENARIOS['S2w'] = dict(SCENARIOS['S2'], packets={k: (dict(v, lp=True) if 'data' in v else v) for k, v in SCENARIOS['S2']['packets'].items()})
 
-LEN = {'quick': {'S1': 5, 'S2': 5, 'S3': 5, 'S3b': 5, 'S4': 5, 'S5': 5, 'S7': 5, 'S1p': 4, 'S4p': 4, 'S7p': 4, 'S2w': 4, 'S1m': 4, 'S7m': 4, 'S5d': 4, 'S2g': 3, 'S7g': 3, 'S1t': 3, 'S7t': 3},
-       'thorough': {'S1': 6, 'S2': 6, 'S3': 6, 'S3b': 6, 'S4': 6, 'S5': 6, 'S7': 6, 'S1p': 5, 'S4p': 5, 'S7p': 5, 'S2w': 5, 'S1m': 5, 'S7m': 5, 'S5d': 5, 'S2g': 4, 'S7g': 4, 'S1t': 4, 'S7t': 4}}
+LEN = {'quick': {'S1': 5, 'S2': 5, 'S3': 5, 'S3b': 5, 'S4': 5, 'S5': 5, 'S7': 5, 'S1p': 4, 'S4p': 4, 'S7p': 4, 'S2w': 4, 'S1m': 4, 'S7m': 4, 'S5d': 4, 'S5z': 4, 'S2g': 3, 'S7g': 3, 'S1t': 3, 'S7t': 3},
+       'thorough': {'S1': 6, 'S2': 6, 'S3': 6, 'S3b': 6, 'S4': 6, 'S5': 6, 'S7': 6, 'S1p': 5, 'S4p': 5, 'S7p': 5, 'S2w': 5, 'S1m': 5, 'S7m': 5, 'S5d': 5, 'S5z': 5, 'S2g': 4, 'S7g': 4, 'S1t': 4, 'S7t': 4}}
 DEV = {'quick': 1, 'thorough': 2}
 
 
@@ -449,8 +456,13 @@ def judge(sname, fe_name, run):
         start = t0 if fe_name == 'v2' else max(t0, t_await.get(i, 0))
         due = max(start + interests[i]['lifetime'] * 1000, t_await.get(i, 0))
         reached = False
+        started = False
         for e in run.trace:
-            if len(e) > 2 and isinstance(e[2], int) and e[0] in ('fire', 'awaited', 'rx') and e[2] >= due:
+            if e[0] == 'expressed' and e[1] == i:
+                started = True
+            if not started:
+                continue
+            if len(e) > 2 and isinstance(e[2], int) and ((e[0] == 'fire' and e[1] == 'tick') or e[0] == 'awaited') and e[2] >= due:
                 reached = True
             if e[0] == 'done' and e[1] == i:
                 break
